@@ -224,12 +224,15 @@ func wprotLayers(tier string, prop string) []Layer {
 				far := x.Form == fFinite && y.Form == fFinite && abs64(x.Exp-y.Exp) > 3000
 				ar := newProtArena(1 << 16)
 				px, py, pu := ar.place(x), ar.place(y), ar.place(uo)
-				// Sqrt's package-level constants
-				oh, th := decimal.VerifSqrtConsts()
-				ph := ar.place(opndFromObs(Observe(oh)))
-				pt := ar.place(opndFromObs(Observe(th)))
+				// every package-level *Decimal (Sqrt's constants and whatever else the sources declare)
+				gnames, gptrs := decimal.VerifGlobalDecimals()
+				saved := make([]*Dec, len(gptrs))
+				for gi, gp := range gptrs {
+					saved[gi] = *gp
+					*gp = ar.place(opndFromObs(Observe(*gp)))
+				}
+				_ = gnames
 				ar.protect()
-				decimal.VerifSetSqrtConsts(ph, pt)
 				for oi := range ops {
 					op := &ops[oi]
 					if op.arity == 1 && yi != 0 {
@@ -266,7 +269,9 @@ func wprotLayers(tier string, prop string) []Layer {
 						}
 					}
 				}
-				decimal.VerifSetSqrtConsts(oh, th)
+				for gi, gp := range gptrs {
+					*gp = saved[gi]
+				}
 				ar.release()
 			}
 		},
